@@ -30,11 +30,18 @@ def cacheQueryInherited (struc : C → P) (mro : C → List C) (st : CState C P)
   | some p => (st, p)
   | none => ((c, struc c) :: st, struc c)
 
-/-- verdicts of a history of validation calls `(class, record)` (what `is_valid()` answers) -/
-def histVerdicts (spec : C → ClassSpec) : CState C Pat → List (C × Word) → List Bool
+/-- `is_valid()` of a structured record over a circular record (`circular = true`) or over a plain
+`SeqRecord` whose annotations declare a linear topology (`circular = false`) -/
+def ClassSpec.isValidC (c : ClassSpec) (w : Word) (circular : Bool) : Bool :=
+  match search c.pat w circular with
+  | none => false
+  | some m => !decide (validCuts c.geom (m.group w 0) > 2)
+
+/-- verdicts of a history of validation calls `(class, record, circular?)` (what `is_valid()` answers) -/
+def histVerdicts (spec : C → ClassSpec) : CState C Pat → List (C × Word × Bool) → List Bool
   | _, [] => []
-  | st, (c, w) :: rest =>
+  | st, (c, w, circ) :: rest =>
     let (st', p) := cacheQuery (fun c => (spec c).pat) st c
-    ({ (spec c) with pat := p } : ClassSpec).isValid w :: histVerdicts spec st' rest
+    ({ (spec c) with pat := p } : ClassSpec).isValidC w circ :: histVerdicts spec st' rest
 
 end Moclo
